@@ -21,7 +21,7 @@ Steps (`Lbl`):
                            then the commands.  `keep = true`: the datagram stays in flight as well (duplication);
   * `lose e`               one copy of a datagram in flight is lost (also: the destination is no actor, or its
                            thread has not bound its socket yet, or `send_to`/`serialize` failed);
-  * `fire i k picks`       an interrupt of thread `i` whose deadline has passed (`deadline ≤ now`) is removed and
+  * `fire i k picks`       an interrupt of thread `i` whose deadline has passed (`deadline < now`: at `deadline = now` the code takes the receive branch with a zero read timeout and the thread dies, `Loop.Ev.zeroWait`) is removed and
                            `on_timeout` / `on_random` runs (the code fires the MINIMUM overdue entry, strictly
                            overdue; any overdue entry is an over-approximation);
   * `tick t`               the clock advances to `t` (`now ≤ t < never`).
@@ -153,7 +153,7 @@ def rstep (sys : ActorSys σ η) (rs : RSt σ η) : Lbl → Option (RSt σ η)
     match rs.st i with
     | none => none
     | some s =>
-      if i < sys.n ∧ (rs.ints i).any (fun en => en.1 = k && en.2 ≤ rs.now) = true ∧ picksOk rs.now picks = true then
+      if i < sys.n ∧ (rs.ints i).any (fun en => en.1 = k && en.2 < rs.now) = true ∧ picksOk rs.now picks = true then
         match handlerK sys i s k with
         | .panic => none
         | .ok ns cmds =>
